@@ -79,6 +79,10 @@ CHECKS = {
    text="The real cache actor with a writer moving through distinguishable complete states via sync/refilter and two concurrent readers (List, Get), all interleavings explored: every List equals exactly one of the states (never half-applied), is not older than a write the reader already knew complete, successive reads never go backwards, mutating the returned slice affects nobody. The engine's vector-clock check reports any access to cache state that is not ordered by channel operations (data race) as a violation.",
    note="Bounds: quick 2 writes, 2 readers x 2 reads; thorough 3 writes. Race detection covers the explored schedules and the Go memory model restricted to channel/goroutine-start/close ordering; go test -race is a different technique and not used.",
    ref="DESIGN.md §4 C15"),
+ "C09": dict(
+   text="Wiring link of the join property, on real code: each of the 8 generated XYsWith joins (through its default wrapper) and IngressPods runs with the real typed monitors and kcache.monitor between fake untyped controllers (typed objects are the real typed wrappers). The environment makes the source ready and performs K source changes (appear / change / disappear, symbolic namespaces, names, selectors); at every quiescent point z3 shows the filter most recently handed to the destination's for-filter clone equals (FiltersEqual, and agrees on a symbolic pod with) the join's selection rule applied to the current source content, that nothing is refiltered before the source is ready, and that closing the result closes the clone and the monitor's subscription, leaves source and destination running, and leaves no library goroutine behind; for IngressPods also that the intermediate join is closed.",
+   note="Compositional claim: join cache = destination objects selected by current source objects follows from this link + C19 (selection rules) + C06/C08 (for-filter clone content and readiness) + C16 (monitor ordering); the end-to-end system of two controllers is not explored as one state space. Bounds: <=1 initial source object, K<=2 (thorough 3) changes, selectors with one symbolic label.",
+   ref="DESIGN.md §4 C09"),
 }
 NOT_APPLICABLE = {}
 PENDING = "check under construction in this session: harness not yet registered (no claim is made)"
